@@ -463,9 +463,16 @@ def run_cam_case(case):
     return out
 
 
-def drive_cluster(cm, state, rep):
-    """bring a real VBSClusteringManager into the named clustering state through its public API"""
+VRU_PROFILES = ("pedestrian", "bicyclistAndLightVruVehicle", "motorcyclist", "animal")     # bit 0..3 of VruClusterProfiles
+
+
+def drive_cluster(cm, state, rep, leave_reason=None, breakup_reason=None):
+    """bring a real VBSClusteringManager into the named clustering state through its public API; leave_reason /
+    breakup_reason: index into the members of ClusterLeaveReason / ClusterBreakupReason (audit round: every member,
+    not only safetyCondition / notProvided)"""
     from flexstack.facilities.vru_awareness_service.vru_clustering import ClusterLeaveReason, ClusterBreakupReason
+    lr = list(ClusterLeaveReason)[leave_reason % len(ClusterLeaveReason)] if leave_reason is not None else ClusterLeaveReason.SAFETY_CONDITION
+    br = list(ClusterBreakupReason)[breakup_reason % len(ClusterBreakupReason)] if breakup_reason is not None else ClusterBreakupReason.NOT_PROVIDED
     lat, lon = rep.get("lat", 41.0), rep.get("lon", 2.0)
 
     def nearby_vam(sid, cluster_id=None):
@@ -514,7 +521,7 @@ def drive_cluster(cm, state, rep):
         upd()
         cm.on_received_vam(nearby_vam(900, cluster_id=21))
         if state == "leave_notify":
-            cm.trigger_leave_cluster(ClusterLeaveReason.SAFETY_CONDITION)
+            cm.trigger_leave_cluster(lr)
         elif state == "leader_lost":
             VCLOCK.advance(2000)
             upd()
@@ -523,7 +530,7 @@ def drive_cluster(cm, state, rep):
             cm.on_received_vam(nearby_vam(sid))
         cm.try_create_cluster(lat, lon)
         if state in ("leader_breakup", "leader_breakup_expiring"):
-            cm.trigger_breakup_cluster(ClusterBreakupReason.NOT_PROVIDED)
+            cm.trigger_breakup_cluster(br)
             VCLOCK.advance(500 if state == "leader_breakup" else 2700)
 
 
@@ -563,8 +570,9 @@ def run_vam_case(case):
     if case["cluster"] != "none":
         import flexstack.facilities.vru_awareness_service.vru_clustering as vc
         vc.random = _Shim(_real_random, randint=lambda a, b: 77)
-        cm = VBSClusteringManager(own_station_id=77, own_vru_profile="pedestrian", time_fn=lambda: VCLOCK.ms / 1000)
-        drive_cluster(cm, case["cluster"], case["reports"][0])
+        cm = VBSClusteringManager(own_station_id=77, own_vru_profile=VRU_PROFILES[case.get("profile", 0) % 4],
+                                  time_fn=lambda: VCLOCK.ms / 1000)
+        drive_cluster(cm, case["cluster"], case["reports"][0], case.get("leave_reason"), case.get("breakup_reason"))
         info["state"] = cm.state.value
     mgr = vtm.VAMTransmissionManagement(btp, vam_coder(), vtm.DeviceDataProvider(station_id=77, station_type=case["station_type"]),
                                         clustering_manager=cm)
@@ -974,6 +982,11 @@ def check_one(ctx, kind, case, rep, o, info, inp):
                 e = exp["info"]["vruClusterInformation"]
                 shape = g.get("clusterBoundingBoxShape")
                 radius = shape[1].get("radius") if isinstance(shape, (tuple, list)) else None
+                want_bits = [bytes([0x80 >> (case.get("profile", 0) % 4)]).hex(), 4]
+                if norm(g.get("clusterProfiles")) != want_bits:
+                    ctx.property_failure("vam_cluster_information_container", inp, "clusterProfiles is not the bit of the "
+                                         "leader's own VRU profile (" + VRU_PROFILES[case.get("profile", 0) % 4] + ")",
+                                         want_bits, norm(g.get("clusterProfiles")))
                 if g.get("clusterId") != e.get("clusterId") or g.get("clusterCardinalitySize") != e.get("clusterCardinalitySize") \
                         or not (1 <= g.get("clusterId", 0) <= 255) or g.get("clusterCardinalitySize", 0) < 1 \
                         or radius is None or radius < 1:
@@ -1187,6 +1200,19 @@ def run(ctx):
         for _ in range(1 if quick else 4):
             reps = seq_ts(rng, [gen_report(rng, 0) for _ in range(3 if quick else 8)])
             cases.append({"kind": "vam", "t0": t0_of(rng), "station_type": rng.choice([1, 2, 0]), "cluster": state, "reports": reps})
+    # every VRU profile as the leader's own, every leave / break-up reason (audit round)
+    for k in range(4 if quick else 12):
+        reps = seq_ts(rng, [gen_report(rng, 0) for _ in range(2)])
+        cases.append({"kind": "vam", "t0": t0_of(rng), "station_type": 1, "cluster": rng.choice(["leader", "leader_breakup"]),
+                      "profile": k, "breakup_reason": rng.randrange(6), "reports": reps})
+    for k in range(9):
+        reps = seq_ts(rng, [gen_report(rng, 0) for _ in range(2)])
+        cases.append({"kind": "vam", "t0": t0_of(rng), "station_type": 1, "cluster": "leave_notify", "profile": k,
+                      "leave_reason": k, "reports": reps})
+    for k in range(6):
+        reps = seq_ts(rng, [gen_report(rng, 0) for _ in range(2)])
+        cases.append({"kind": "vam", "t0": t0_of(rng), "station_type": 1, "cluster": "leader_breakup", "profile": k,
+                      "breakup_reason": k, "reports": reps})
     check_cases(ctx, cases, "cluster")
     # random reports in range and the out-of-range stream
     n = 3000 if quick else 100000
